@@ -9,6 +9,7 @@ import (
 	"golang.org/x/tools/go/ssa"
 
 	"verif/internal/an"
+	"verif/internal/pipeline"
 )
 
 func init() {
@@ -79,7 +80,7 @@ func (c *Ctx) checkGuardedBy(fns []*ssa.Function, table []guardedField, keyPrefi
 						if ls == nil {
 							ls = an.Locksets(fn)
 						}
-						held := an.HeldFor(ls[use], base, g.lock) || an.HeldViaWrapper(fn, fa.X, g.lock)
+						held := an.HeldFor(ls[use], base, g.lock) || an.HeldViaWrapper(fn, fa.X, g.lock) || c.heldByCallers(fn, fa.X, g.lock, 0)
 						kind := "read"
 						if _, isStore := use.(*ssa.Store); isStore {
 							kind = "write"
@@ -420,4 +421,69 @@ func c06CollectPrivate(c *Ctx) {
 			}
 		}
 	}
+}
+
+// heldByCallers: fn is an unexported function or method that touches the guarded field of obj without locking, obj being one of
+// its parameters (usually the receiver): accepted when every static call site of fn in its package holds <arg>.<lock> for the
+// corresponding argument (directly, through a lock wrapper, or — recursively — through its own callers), fn is never started
+// with go/defer and never used as a function value.
+func (c *Ctx) heldByCallers(fn *ssa.Function, obj ssa.Value, lock string, depth int) bool {
+	if depth > 3 || fn == nil || fn.Parent() != nil || fn.Object() == nil || fn.Object().Exported() {
+		return false
+	}
+	idx := -1
+	for i, p := range fn.Params {
+		if ssa.Value(p) == obj || an.SameVar(p, obj) {
+			idx = i
+		}
+	}
+	if idx < 0 {
+		return false
+	}
+	pkg := pipeline.FuncPkgPath(fn)
+	n := 0
+	for _, caller := range c.moduleFuncs(func(p string) bool { return p == pkg }) {
+		var ls map[ssa.Instruction]map[string]bool
+		for _, b := range caller.Blocks {
+			for _, in := range b.Instrs {
+				// used as a value?
+				for _, op := range in.Operands(nil) {
+					if *op == ssa.Value(fn) {
+						if call, isCall := in.(ssa.CallInstruction); !isCall || call.Common().Value != ssa.Value(fn) {
+							return false
+						}
+					}
+				}
+				call, ok := in.(ssa.CallInstruction)
+				if !ok || call.Common().StaticCallee() != fn {
+					continue
+				}
+				if _, isCall := in.(*ssa.Call); !isCall {
+					return false // go / defer
+				}
+				n++
+				if idx >= len(call.Common().Args) {
+					return false
+				}
+				arg := call.Common().Args[idx]
+				if ls == nil {
+					ls = an.Locksets(caller)
+				}
+				held := false
+				if p := an.Path(arg); p != "" && ls[in][p+"."+lock] {
+					held = true
+				}
+				if !held && an.HeldViaWrapper(caller, arg, lock) {
+					held = true
+				}
+				if !held && c.heldByCallers(topFn(caller), arg, lock, depth+1) && caller.Parent() == nil {
+					held = true
+				}
+				if !held {
+					return false
+				}
+			}
+		}
+	}
+	return n > 0
 }
